@@ -15,7 +15,7 @@ env.bootstrap()
 
 from vlib.programs import gen_program, Built, World, describe, playback_function_for, call_outcome, Outcome, outcome_teq  # noqa: E402
 from vlib.spies import SpyCassette  # noqa: E402
-from vlib.values import teq, in_domain  # noqa: E402
+from vlib.values import teq, in_domain, recording_in_domain  # noqa: E402
 
 
 def make_prog(seed):
@@ -47,7 +47,7 @@ def main():
             saves = [e for e in spy.log if e[0] == 'save']
             if len(saves) == 1 and not any(e[0] == 'save_failed' for e in spy.log):
                 ro = spy.recordings[saves[0][1]]
-                if in_domain({'recording_data': ro.recording_data, 'recording_metadata': ro.recording_metadata}):
+                if recording_in_domain(ro.recording_data, ro.recording_metadata):
                     index[str(base + i)] = saves[0][2]
         with open(idx_path, 'w') as f:
             json.dump(index, f)
